@@ -8,6 +8,14 @@ from props import aml_common as ac
 KINDS = ["Memory32Fixed", "IO", "Interrupt", "Register", "AddrSpace"]
 
 
+def q8(g):
+    """a QWord address space descriptor (46 bytes): 1425 of them carry a template's payload past 65535 bytes"""
+    d = g.descriptor("AddrSpace")
+    while d["w"] != 8:
+        d = g.descriptor("AddrSpace")
+    return d
+
+
 def run(ctx):
     rng = vlib.Rng(ctx.seed)
     th = ctx.thorough()
@@ -43,6 +51,8 @@ def run(ctx):
     for n in list(range(0, 14)) + [20, 40, 80, 150, 255, 256, 257, 300 if th else 260]:
         for _ in range(3):
             progs.append(amlgen.prog(g, g.template(n)))
+    for n in (1424, 1425, 1426, 3000 if th else 1600):        # payload across 65535/65536 bytes (buffer-size operand becomes a DWord)
+        progs.append(amlgen.prog(g, {"t": "ResourceTemplate", "ch": [q8(g) for _ in range(n)]}, tag="template/%d" % n))
     ctx.samples = [progs[0], progs[30], progs[-1]]
     ctx.distinct = ac.distinct(progs)
     ac.mc_corpus(ctx, progs[::3] if not th else progs, pieces=10)
